@@ -1,9 +1,9 @@
 #!/bin/sh
-# Build the framework from files on disk only (offline).
+# Build the framework from files on disk only (offline): for every claimed property
+# (props/C*.json) the Lean theorem modules + driver executable and the harness binaries.
 set -e
 cd "$(dirname "$0")"
 export CARGO_NET_OFFLINE=true
 python3 tools/translate.py
 python3 tools/gen_driver.py
-(cd lean && lake build)
-(cd harness && cargo build --release --offline --workspace --bins)
+python3 tools/setup_targets.py
